@@ -19,7 +19,7 @@ MC_INV = {
     "C03": ["C03_NoStale", "C04_PublishedClean", "C02_NoReentry"],
     "C04": ["C04_EarlyOnce", "C04_OneEarlyRef", "C04_PublishedClean", "C04_CleanFailure", "C04_NoHalfBuilt"],
     "C05": ["C05_Once", "C05_Lazy", "C05_LazyProcs", "C05_ProcsBeforeRefresh"],
-    "C09": ["C09_FaultFails", "C04_CleanFailure"],
+    "C09": ["C09_FaultFails", "C04_CleanFailure", "C13_AfterReady", "C13_StopAtError", "C13_Once"],
 }
 MC_PROPS = {
     "C01": ["C01_PublishedStable"], "C02": [], "C03": ["C01_PublishedStable"], "C04": ["C04_PublishedStable"],
@@ -32,7 +32,7 @@ MON_INV = {
     "C03": ["M_C03_NoStale", "M_C04_PublishedClean", "M_C02_NoReentry"],
     "C04": ["M_C04_EarlyOnce", "M_C04_OneEarlyRef", "M_C04_PublishedClean", "M_C04_CleanFailure", "M_C04_NoHalfBuilt"],
     "C05": ["M_C05_Order", "M_C05_Once", "M_C05_DepsFirst", "M_C05_PopulatedBeforeInit", "M_C05_AllCallbacks", "M_C05_Lazy", "M_C05_LazyProcs"],
-    "C09": ["M_C09_NoPanic", "M_C09_FaultFails", "M_C04_CleanFailure"],
+    "C09": ["M_C09_NoPanic", "M_C09_FaultFails", "M_C04_CleanFailure", "M_C13_Runners"],
 }
 MON_PROPS = {"C01": ["M_C01_PublishedStable"], "C02": [], "C03": ["M_C01_PublishedStable"],
              "C04": ["M_C01_PublishedStable"], "C05": [], "C09": []}
